@@ -17,7 +17,7 @@
    f32`, l.603-604); child boxes store `split_pos as f64` (exact), so the box
    can be kept in f32 throughout: f32 -> f64 -> f32 is the identity. *)
 From Coupe Require Import Lib.Prelude Lib.SFloat.
-From Coq Require Import Floats.SpecFloat.
+From Coq Require Import Floats.SpecFloat FSets.FMapPositive.
 Open Scope Z_scope.
 
 (* rayon split tree of an indexed parallel iterator: [SNode k l r] splits the
@@ -47,7 +47,9 @@ Section Generic.
 
   (* one element of the structure-of-arrays [Items]: its index in the caller's
      arrays (the `&AtomicUsize` cell it carries), its D coordinates, its weight *)
-  Record item := mkitem { ix : nat; co : list C; wt : Z }.
+  (* the cell index is kept in binary ([ixN]); [ix] is its value as a position *)
+  Record item := mkitem { ixN : N; co : list C; wt : Z }.
+  Definition ix (it : item) : nat := N.to_nat (ixN it).
 
   (* an element together with its coordinate on the current axis *)
   Definition keyed := (C * item)%type.
@@ -70,9 +72,9 @@ Section Generic.
 
   Definition fold_step (t : C) (a : acc) (idx : nat) (x : C) (w : Z) : acc :=
     let '(cnt, wl, ni, nd) := a in
-    let d := dist x t in
-    let left := if by_coord then ltb x t else ltb d zero in
-    let key := if by_coord then x else d in
+    (* `distance` is computed only by the variant that uses it *)
+    let key := if by_coord then x else dist x t in
+    let left := if by_coord then ltb x t else ltb key zero in
     if left then (cnt + 1, wl + w, ni, nd)
     else if ltb key nd then (cnt, wl, Some idx, key)
     else (cnt, wl, ni, nd).
@@ -178,11 +180,11 @@ Section Generic.
     match xs, nth_opt xs pivot with
     | x0 :: rest, Some p =>
       let tail := match pivot with O => rest | S j => set_nth rest j x0 end in
-      match hoare (fst p) (length tail) tail (rev tail) [] [] with
+      match hoare (fst p) (length tail) tail (rev_append tail []) [] [] with
       | None => Panic 9
       | Some (aL, aR) =>
         (* swap(0, l); split_at(l) *)
-        Ok (match aL with [] => [] | z :: a' => z :: rev a' end, p :: aR)
+        Ok (match aL with [] => [] | z :: a' => z :: rev_append a' [] end, p :: aR)
       end
     | _, _ => Panic 2
     end.
@@ -230,6 +232,25 @@ Section Generic.
       if Nat.ltb (ix it) (length p) then scatter (set_nth p (ix it) id) t else Panic 3
     end.
 
+  (* the same stores through a binary-trie view of the array (O(n log n)
+     instead of O(n^2); [scatter_fast = scatter]: Proofs/RcbProofs.v).  This is
+     what [rcb_core] runs. *)
+  Fixpoint fill (m : PositiveMap.t N) (asg : list (item * N)) : PositiveMap.t N :=
+    match asg with
+    | [] => m
+    | (it, id) :: t => fill (PositiveMap.add (N.succ_pos (ixN it)) id m) t
+    end.
+  (* [j]: key of the first position of [p] *)
+  Fixpoint readback (m : PositiveMap.t N) (j : positive) (p : list N) : list N :=
+    match p with
+    | [] => []
+    | v :: t => match PositiveMap.find j m with Some w => w | None => v end :: readback m (Pos.succ j) t
+    end.
+  Definition scatter_fast (p : list N) (asg : list (item * N)) : res (list N) :=
+    let n := N.of_nat (length p) in
+    if forallb (fun x => (ixN (fst x) <? n)%N) asg
+    then Ok (readback (fill (PositiveMap.empty N) asg) 1%positive p) else Panic 3.
+
   Fixpoint minN (d : N) (l : list N) : N :=
     match l with [] => d | x :: t => minN (N.min d x) t end.
 
@@ -239,7 +260,7 @@ Section Generic.
   Definition rcb_core (fuel : nat) (sched : N -> nat -> stree) (D k : nat)
              (its : list item) (sum : Z) (bb : box) (p0 : list N) : res (list N) :=
     bind (rcb_rec fuel sched D k its 0%N 0%nat sum bb) (fun asg =>
-    bind (scatter p0 asg) (fun p =>
+    bind (scatter_fast p0 asg) (fun p =>
     match p with
     | [] => Panic 4
     | x :: t => let off := minN x t in Ok (map (fun i => (i - off)%N) p)
@@ -420,6 +441,7 @@ Section Generic.
 End Generic.
 
 Arguments mkitem {C}.
+Arguments ixN {C}.
 Arguments ix {C}.
 Arguments co {C}.
 Arguments wt {C}.
@@ -470,9 +492,9 @@ Fixpoint bbox32 (D : nat) (a : nat) (pts : list (list spec_float)) : option (box
     end
   end.
 
-Fixpoint mk_items (i : nat) (pts : list (list spec_float)) (ws : list Z) : list item32 :=
+Fixpoint mk_items (i : N) (pts : list (list spec_float)) (ws : list Z) : list item32 :=
   match pts, ws with
-  | p :: pt, w :: wt' => mkitem i (map f64_to_f32 p) w :: mk_items (S i) pt wt'
+  | p :: pt, w :: wt' => mkitem i (map f64_to_f32 p) w :: mk_items (N.succ i) pt wt'
   | _, _ => []
   end.
 
@@ -494,7 +516,7 @@ Definition rcb (v : variant) (fuel : nat) (sched : N -> nat -> stree) (D k : nat
       | Some bb =>
         rcb_core spec_float flt fle (f32_mid (v_safe_mid v)) f32_sub f32_add f32_zero f32_inf (tol_test tol)
                  (v_old v) (v_by_coord v) (v_probe_max v)
-                 fuel sched D k (mk_items 0 pts ws) (sumZ ws) bb p0
+                 fuel sched D k (mk_items 0%N pts ws) (sumZ ws) bb p0
       end
     end.
 
@@ -519,7 +541,7 @@ Fixpoint box_ok_from (a : nat) (bb : box spec_float) (its : list item32) : bool 
   end.
 Definition box_ok32 (D : nat) (pts : list (list spec_float)) (ws : list Z) : bool :=
   match bbox32 D 0 pts with
-  | Some bb => box_ok_from 0 bb (mk_items 0 pts ws)
+  | Some bb => box_ok_from 0 bb (mk_items 0%N pts ws)
   | None => false
   end.
 
